@@ -324,9 +324,9 @@ class Chipset(object):
 
         data = self.send_command(0x48, data)
 
-        if data is not None and len(data) < 7:
+        if data is None or len(data) < 7:
             raise IOError(errno.EIO, os.strerror(errno.EIO))
-        if data and tuple(data[3:7]) != (0, 0, 0, 0):
+        if tuple(data[3:7]) != (0, 0, 0, 0):
             raise CommunicationError(data[3:7])
 
         return data
